@@ -129,10 +129,14 @@ PROPS = {
         assumptions=["'only by the licensed address itself' holds as: the signer is the licensee, an address the licensee itself fee-granted (a MsgGrantAllowance is signed by its granter), or a sale client of the configured fee granter when governance set the fee granter to a licensed address (theorems activate_only_by_licensee_or_delegate, activate_only_by_licensee_or_own_delegate; the last case is the known finding C18-feegranter-licensee)"],
     ),
     "C09": dict(
-        lean_modules=["PalomaModel.Props.C09", "PalomaModel.Props.Consts.Schedule"], gen=["Panics.lean", "ConstTable.lean"],
+        lean_modules=["PalomaModel.Props.C09", "PalomaModel.Props.C09Gate", "PalomaModel.Props.Consts.Schedule"], gen=["Panics.lean", "ConstTable.lean", "Atomicity.lean"],
         harness_test="TestC09",
+        # TestC14 (the queue harness) runs here for its `endblock` observable: after the consensus end-blocker every queued
+        # message is either fully processed or exactly as it was (estimate elected <=> fees attached), whatever its neighbours did
+        extra_tests=[{"test": "TestC09Gate", "dir": "C09G", "n_quick": 4000, "n_thorough": 40000},
+                     {"test": "TestC14", "dir": "C14", "n_quick": 150, "n_thorough": 1200}],
         n_quick=8, n_thorough=8, thorough_seeds=4, timeout_quick=900, timeout_thorough=5000, env_thorough={"VERIF_BLOCKS": "10100"},
-        spec_ops=["block"],
+        spec_ops=["block", "gate", "endblock"],
         level_text="PARTIAL. Lean 4 theorems: the per-message loops of the consensus end-blocker treat a failing message exactly as if it were absent (failing_message_is_skipped, every_message_gets_its_turn; tied to the source by the regenerated fact that no statement inside those loops leaves the function with an error); the fee arithmetic on the end-block path is total with explicit error outcomes for every multiplicator (missing, negative, astronomically large) and estimate, and — by decide over the inventory "
                    "regenerated from the typed source on every run (call-graph reachability from every module's Begin/EndBlock, stopping at functions that install a recover) — every explicit panic, Must* call, narrowing sdkmath conversion, sdkmath division, "
                    "unchecked type assertion and slice-to-array conversion on the block path is a harmless kind or individually justified. Panics inside the SDK / wasm / IBC and resource exhaustion are outside the inventory: the full application is fuzzed with hostile values "
